@@ -18,7 +18,7 @@ EXTENDS Integers, Sequences, FiniteSets, TLC, Json, IOUtils
 MetaV  == {"nil", "empty", "full"}
 NlV    == {"nil", "empty", "nodes"}
 RootsV == {"none", "one", "many", "dangling", "dup", "emptyid"}
-NodesV == {"plain", "nilnode", "dupid", "emptyid", "badenum", "negenum", "rich"}
+NodesV == {"plain", "nilnode", "dupid", "emptyid", "badenum", "negenum", "rich", "protoids", "odd-urls"}
 EdgesV == {"none", "tree", "cycle", "cycle-tail", "island-cycle", "deps-cycle", "dup-deps", "dag", "dangling", "niledge", "dupedge", "emptyto", "selfloop", "negtype", "shared-child", "random", "ladder"}
 DtV    == {"none", "typed", "nilall", "other-nilname", "other-named", "runtime", "badenum", "negenum"}
 ExtraV == {"none", "nilperson", "nilextref", "niltool", "nilauthor", "nildoctype", "paren-person"}
